@@ -388,31 +388,39 @@ package gldap
 
 // ---- response constructors (C16 totality) -------------------------------------------------
 //@ pure reqOK(r *Request) bool = r != nil && ownMsg(r.message)
-//@ func (*gldap.Request).NewResponse
-//@   requires reqOK(r)
-//@   ensures  result != nil
-//@   panics false
-//@   tags C16
 //@ func (*gldap.Request).NewModifyResponse
+//@   shapes WithResponseCode WithDiagnosticMessage WithMatchedDN
 //@   requires reqOK(r)
-//@   ensures  result != nil
+//@   ensures  result != nil && fresh(result) && result.GeneralResponse != nil && result.GeneralResponse.baseResponse != nil && result.GeneralResponse.messageID == msgID(r.message) && result.GeneralResponse.applicationCode == ApplicationModifyResponse
+//@   ensures  result.GeneralResponse.code == int16(cond(has_WithResponseCode, arg_WithResponseCode, ResultUnwillingToPerform))
+//@   ensures  result.GeneralResponse.diagMessage == cond(has_WithDiagnosticMessage, arg_WithDiagnosticMessage, "Unused") && result.GeneralResponse.matchedDN == cond(has_WithMatchedDN, arg_WithMatchedDN, "Unused")
 //@   panics false
-//@   tags C16
+//@   modifies nothing
+//@   tags C04 C16
 //@ func (*gldap.Request).NewExtendedResponse
+//@   shapes WithResponseCode
 //@   requires reqOK(r)
-//@   ensures  result != nil
+//@   ensures  result != nil && fresh(result) && result.baseResponse != nil && fresh(result.baseResponse) && result.messageID == msgID(r.message)
+//@   ensures  result.code == int16(cond(has_WithResponseCode, arg_WithResponseCode, 0)) && result.diagMessage == "" && result.matchedDN == ""
 //@   panics false
-//@   tags C16
+//@   modifies nothing
+//@   tags C04 C16
 //@ func (*gldap.Request).NewBindResponse
+//@   shapes WithResponseCode
 //@   requires reqOK(r)
-//@   ensures  result != nil
+//@   ensures  result != nil && fresh(result) && result.baseResponse != nil && fresh(result.baseResponse) && result.messageID == msgID(r.message)
+//@   ensures  result.code == int16(cond(has_WithResponseCode, arg_WithResponseCode, 0)) && result.diagMessage == "" && result.matchedDN == ""
 //@   panics false
-//@   tags C16
+//@   modifies nothing
+//@   tags C04 C16
 //@ func (*gldap.Request).NewSearchDoneResponse
+//@   shapes WithResponseCode
 //@   requires reqOK(r)
-//@   ensures  result != nil
+//@   ensures  result != nil && fresh(result) && result.baseResponse != nil && fresh(result.baseResponse) && result.messageID == msgID(r.message)
+//@   ensures  result.code == int16(cond(has_WithResponseCode, arg_WithResponseCode, 0)) && result.diagMessage == "" && result.matchedDN == ""
 //@   panics false
-//@   tags C16
+//@   modifies nothing
+//@   tags C04 C16
 
 // ---- sid.go / entry.go (C16) -----------------------------------------------------------------
 //@ func gldap.SIDBytes
@@ -548,6 +556,16 @@ package gldap
 //@ ghost nframes Int
 //@ ghost tlscfg Int
 //@ ghost cancelled Bool
+//@ ghost guard Int
+//@ ghost lastok Bool
+//@ ghost connclosed Int
+//@ ghost lasttag Int
+//@ ghost lastcode Int
+//@ ghost lastid Int
+//@ ghost werr Bool
+//@ ghost acq Int
+//@ ghost pendstr Str
+//@ ghost flushed Str
 //@ ghost clock Int
 //@ ghost tclose Int
 //@ ghost tonclose Int
@@ -625,16 +643,21 @@ package gldap
 //@ func gldap.newConn
 //@   requires connID > G_maxid[0]
 //@   ensures  err == nil ==> result0 != nil && fresh(result0) && result0.connID == connID && connID != 0 && result0.netConn == netConn && result0.router == router && !isNilIface(result0.logger)
-//@   ensures  err == nil ==> result0.reader != nil && result0.writer != nil && !held(&result0.mu) && !held(&result0.writerMu)
+//@   ensures  err == nil ==> connIO(result0) && result0.shutdownCtx == shutdownCtx && !held(&result0.mu) && !held(&result0.writerMu)
 //@   ensures  unchanged(G_held) && unchanged(G_rheld)
 //@   sets     G_maxid[0] = connID when err == nil
 //@   panics false
-//@   modifies nothing
+//@   modifies conn.netConn, conn.reader, conn.writer
 //@   tags C09
 
 //@ func (*gldap.Server).Run$1
-//@   panics any
-//@   tags C08
+//@   requires s != nil && !isNilIface(s.logger) && conn != nil && connOK(conn) && !isNilIface(c) && localConnID == conn.connID && G_wgcnt[&s.connWg] > 0
+//@   requires G_nread[conn] == 0 && !G_lastunbind[conn] && !G_tlspending[conn] && !held(&conn.mu) && !held(&conn.writerMu) && G_wgcnt[&conn.requestsWg] >= 0
+//@   entry    G_role[0] == 2
+//@   exit     G_connclosed[conn] == old(G_connclosed[conn]) + 1 && G_wgcnt[&s.connWg] == old(G_wgcnt[&s.connWg]) - 1
+//@   exit     s.onCloseHandler != nil ==> G_onclose[localConnID] == old(G_onclose[localConnID]) + 1
+//@   panics false when !s.disablePanicRecovery
+//@   tags C08 C07 C09
 //@ func (*gldap.Server).Run
 //@   requires srvOK(s) && !held(&s.mu) && G_maxid[0] == 0 && G_wgcnt[&s.connWg] >= 0
 //@   ensures  !held(&s.mu)
@@ -676,12 +699,14 @@ package gldap
 //@   sets G_tonclose[connectionID] = G_clock[0]
 //@   panics false
 
-//@ pure connOK(c *conn) bool = c != nil && !isNilIface(c.netConn) && iref(c.netConn) != 0 && !isNilIface(c.logger) && c.router != nil && c.reader != nil && c.writer != nil && !isNilIface(c.shutdownCtx) && c.connID != 0
+//@ pure connIO(c *conn) bool = !isNilIface(c.netConn) && c.reader != nil && c.writer != nil && G_guard[c.writer] == &c.writerMu
+//@ pure connOK(c *conn) bool = c != nil && connIO(c) && !isNilIface(c.logger) && c.router != nil && muxOK(c.router) && !isNilIface(c.shutdownCtx) && c.connID != 0
 //@ func (*gldap.conn).close
 //@   requires c != nil && !isNilIface(c.netConn)
 //@   ensures  G_waited[&c.requestsWg] && G_cclosed[iref(c.netConn)] == old(G_cclosed[iref(c.netConn)]) + 1
 //@   ensures  G_twait[&c.requestsWg] < G_tclose[iref(c.netConn)] && G_twait[&c.requestsWg] > old(G_clock[0]) && G_tclose[iref(c.netConn)] <= G_clock[0]
 //@   ensures  c.netConn == old(c.netConn)
+//@   sets     G_connclosed[c] = G_connclosed[c] + 1
 //@   panics false
 //@   modifies nothing
 //@   tags C08 C12
@@ -693,7 +718,7 @@ package gldap
 //@   ensures  s.onCloseHandler != nil ==> G_onclose[localConnID] == old(G_onclose[localConnID]) + 1 && G_tclose[iref(conn.netConn)] < G_tonclose[localConnID]
 //@   ensures  G_twait[&conn.requestsWg] < G_tclose[iref(conn.netConn)]
 //@   ensures[C12] G_tdone[&s.connWg] > G_tclose[iref(conn.netConn)] && (s.onCloseHandler != nil ==> G_tdone[&s.connWg] > G_tonclose[localConnID])
-//@   ensures  G_wgcnt[&s.connWg] == old(G_wgcnt[&s.connWg]) - 1
+//@   ensures  G_wgcnt[&s.connWg] == old(G_wgcnt[&s.connWg]) - 1 && G_connclosed[conn] == old(G_connclosed[conn]) + 1
 //@   panics false
 //@   modifies nothing
 //@   tags C08
@@ -706,3 +731,314 @@ package gldap
 //@   panics false
 //@   modifies nothing
 //@   tags C12
+
+// ---- conn.go: reading, numbering, dispatch (C02, C06, C10, C13) ---------------------------------
+//@ func (*gldap.packet).Log
+//@   requires p != nil && p.Packet != nil
+//@   panics false
+//@   modifies nothing
+//@   tags C02
+//@ loop 1
+//@   invariant true
+//@ func (*gldap.conn).readPacket
+//@   requires connOK(c) && !held(&c.mu)
+//@   ensures  err == nil ==> result0 != nil && fresh(result0) && packetOK(result0) && wire(result0.Packet)
+//@   ensures  !held(&c.mu) && unchanged(G_held) && unchanged(G_rheld)
+//@   panics false
+//@   modifies all(ber.Packet), cell(*ber.Packet), G_bufdata, G_pktnew
+//@   tags C02
+//@ func (*gldap.conn).readRequest
+//@   requires connOK(c) && !held(&c.mu) && requestID == G_nread[c] + 1 && !G_lastunbind[c] && !G_tlspending[c]
+//@   ensures  err == nil ==> result0 != nil && fresh(result0) && result0.ID == requestID && result0.conn == c && ownMsg(result0.message)
+//@   ensures  err == nil ==> (result0.extendedName == ExtendedOperationStartTLS ==> typeIs(result0.message, *ExtendedOperationMessage))
+//@   ensures  !held(&c.mu) && unchanged(G_held) && unchanged(G_rheld)
+//@   sets     G_nread[c] = G_nread[c] + 1 when err == nil
+//@   sets     G_lastunbind[c] = (result0.routeOp == unbindRouteOperation) when err == nil
+//@   sets     G_tlspending[c] = (result0.extendedName == ExtendedOperationStartTLS) when err == nil
+//@   panics false
+//@   modifies all(ber.Packet), cell(*ber.Packet), G_bufdata, G_pktnew
+//@   tags C02 C06 C10 C13
+
+// A-USER: what a handler may do to gldap's state: write responses through its
+// ResponseWriter, upgrade the connection with Request.StartTLS; it may panic.
+//@ functype gldap.HandlerFunc
+//@   params f HandlerFunc, w *ResponseWriter, r *Request
+//@   requires f != nil && w != nil && r != nil
+//@   exit     r.conn != nil ==> connIO(r.conn)
+//@   exit     unchanged(G_held) && unchanged(G_rheld) && unchanged(G_wgcnt)
+//@   sets G_ncalls[0] = G_ncalls[0] + 1
+//@   sets G_lastfn[0] = f
+//@   panics any
+//@   modifies conn.netConn, conn.reader, conn.writer, G_nframes, G_npend, G_guard, G_wdst, G_rsrc, G_held, G_rheld
+
+//@ pure opRespTag(o routeOperation) int = cond(o == bindRouteOperation, ApplicationBindResponse, cond(o == searchRouteOperation, ApplicationSearchResultDone, cond(o == modifyRouteOperation, ApplicationModifyResponse,
+//@     cond(o == addRouteOperation, ApplicationAddResponse, cond(o == deleteRouteOperation, ApplicationDelResponse, ApplicationExtendedResponse)))))
+//@ pure wOK(w *ResponseWriter) bool = w != nil && !isNilIface(w.logger) && w.writer != nil && w.writerMu != nil && G_guard[w.writer] == w.writerMu
+//@ func (*gldap.Mux).serve
+//@   requires m != nil && muxOK(m) && wOK(w) && !held(w.writerMu) && (req != nil ==> reqOK(req) && (req.conn != nil ==> connIO(req.conn)))
+//@   requires[C06] G_role[0] == 3 || (req != nil && req.extendedName == ExtendedOperationStartTLS)
+//@   exit     req != nil && req.conn != nil ==> connIO(req.conn)
+//@   exit     unchanged(G_held) && unchanged(G_rheld) && unchanged(G_wgcnt)
+//@   ensures[C03] req != nil ==> forall(k, 0, len(m.routes), routeMatches(m.routes[k], req) && forall(j, 0, k, !routeMatches(m.routes[j], req)) ==> G_ncalls[0] == old(G_ncalls[0]) + 1 && G_lastfn[0] == rbase(m.routes[k]).h)
+//@   ensures[C03] req != nil && forall(j, 0, len(m.routes), !routeMatches(m.routes[j], req)) && !isNilIface(m.defaultRoute) ==> G_ncalls[0] == old(G_ncalls[0]) + 1 && G_lastfn[0] == rbase(m.defaultRoute).h
+//@   ensures[C03] req != nil && forall(j, 0, len(m.routes), !routeMatches(m.routes[j], req)) && isNilIface(m.defaultRoute) ==> G_ncalls[0] == old(G_ncalls[0])
+//@   ensures[C03] req != nil && forall(j, 0, len(m.routes), !routeMatches(m.routes[j], req)) && isNilIface(m.defaultRoute) && G_lastok[w.writerMu] ==> G_nframes[w.writerMu] == G_acq[w.writerMu] + 1 && G_lastid[w.writerMu] == msgID(req.message) && G_lastcode[w.writerMu] == ResultUnwillingToPerform && G_lasttag[w.writerMu] == opRespTag(req.routeOp)
+//@   sets     G_tlspending[req.conn] = false when req != nil
+//@   exit     G_ncalls[0] <= old(G_ncalls[0]) + 1
+//@   panics any
+//@   modifies conn.netConn, conn.reader, conn.writer, G_nframes, G_npend, G_guard, G_wdst, G_rsrc, G_held, G_rheld, G_ncalls, G_lastfn, all(ber.Packet), cell(*ber.Packet), G_bufdata, G_pktnew, G_acq, G_werr, G_pendstr, G_flushed
+//@   tags C03
+//@ loop 1
+//@   invariant G_ncalls[0] == old(G_ncalls[0]) && forall(j, 0, rangeindex + 1, !routeMatches(m.routes[j], req))
+//@   invariant req != nil && muxOK(m) && wOK(w) && !held(w.writerMu)
+
+//@ func gldap.newResponseWriter
+//@   ensures err == nil ==> result0 != nil && fresh(result0) && result0.writer == w && result0.writerMu == lock && result0.logger == logger && result0.connID == connID && result0.requestID == requestID && requestID != 0
+//@   ensures (w != nil && lock != nil && !isNilIface(logger) && connID != 0 && requestID != 0) ==> err == nil
+//@   requires[C05] w != nil && lock != nil ==> G_guard[w] == lock
+//@   panics false
+//@   modifies nothing
+//@   tags C06 C13
+
+//@ func (*gldap.conn).serveRequests$1
+//@   requires r != nil && r.routeOp != unbindRouteOperation && r.extendedName != ExtendedOperationStartTLS && reqOK(r) && w != nil && !isNilIface(w.logger)
+//@   requires c != nil && r.conn == c && connIO(c) && c.router != nil && muxOK(c.router) && wOK(w) && !held(w.writerMu) && !isNilIface(c.logger) && G_wgcnt[&c.requestsWg] > 0 && w.writer == c.writer
+//@   entry    G_role[0] == 3
+//@   exit     G_wgcnt[&c.requestsWg] == old(G_wgcnt[&c.requestsWg]) - 1
+//@   panics any
+//@   tags C06 C08 C13
+
+//@ func (*gldap.conn).serveRequests
+//@   requires connOK(c) && G_nread[c] == 0 && !G_lastunbind[c] && !G_tlspending[c] && G_role[0] == 2 && !held(&c.mu) && !held(&c.writerMu) && G_wgcnt[&c.requestsWg] >= 0
+//@   exit     !isNilIface(c.netConn) && G_wgcnt[&c.requestsWg] >= 0 && unchanged(G_held) && unchanged(G_rheld)
+//@   exit     forallref(W, *sync.WaitGroup, W != &c.requestsWg ==> G_wgcnt[W] == old(G_wgcnt[W]))
+//@   panics any
+//@   modifies conn.netConn, conn.reader, conn.writer, all(ber.Packet), cell(*ber.Packet), G_bufdata, G_pktnew
+//@   tags C06 C10 C13
+//@ loop 1
+//@   invariant requestID == G_nread[c] && !G_lastunbind[c] && !G_tlspending[c]
+//@   invariant connOK(c) && G_role[0] == 2
+//@   invariant !held(&c.mu) && !held(&c.writerMu)
+//@   invariant G_wgcnt[&c.requestsWg] >= 0
+//@   invariant unchanged(G_held) && unchanged(G_rheld)
+//@   invariant forallref(W, *sync.WaitGroup, W != &c.requestsWg ==> G_wgcnt[W] == old(G_wgcnt[W]))
+
+// ---- response.go: building and writing responses (C04, C05) ----------------------------------------
+// bufio.Writer (A-BUFIO): Write buffers a chunk or fails; Flush puts everything
+// buffered on the wire as one contiguous write or fails; both must be called
+// with the writer's guard lock held (C05).
+//@ extern (*bufio.Writer).Write
+//@   params w *bufio.Writer, p []byte
+//@   results n int, err error
+//@   requires w != nil && heldw(G_guard[w])
+//@   ensures  old(G_werr[w]) ==> err != nil
+//@   sets G_npend[w] = G_npend[w] + 1
+//@   sets G_pendstr[w] = G_pendstr[w] + bytestr(p) when err == nil
+//@   sets G_werr[w] = true when err != nil
+//@   panics false
+//@ extern (*bufio.Writer).Flush
+//@   params w *bufio.Writer
+//@   results err error
+//@   requires w != nil && heldw(G_guard[w])
+//@   ensures  old(G_werr[w]) ==> err != nil
+//@   sets G_werr[w] = true when err != nil
+//@   sets G_nframes[G_guard[w]] = G_nframes[G_guard[w]] + G_npend[w] when err == nil
+//@   sets G_flushed[w] = G_pendstr[w] when err == nil
+//@   sets G_npend[w] = 0 when err == nil
+//@   sets G_pendstr[w] = "" when err == nil
+//@   panics false
+// nothing stays buffered while the guard lock is free
+// ... or the writer is in bufio's sticky error state and will never emit again
+//@ lockinv any : forallref(W, *bufio.Writer, G_guard[W] == m ==> (G_npend[W] == 0 && G_pendstr[W] == "") || G_werr[W])
+
+//@ pure strval(p *ber.Packet) string = p.Value.(string)
+//@ pure ldapResult(q *ber.Packet, id int64, tag ber.Tag, code int64, matched string, diag string) bool = q != nil && isSeq(q) && nkids(q) >= 2 && isInt(kid(q,0)) && intval(kid(q,0)) == id &&
+//@     op(q).ClassType == ber.ClassApplication && op(q).TagType == ber.TypeConstructed && op(q).Tag == tag && nkids(op(q)) == 3 &&
+//@     isEnum(kid(op(q),0)) && intval(kid(op(q),0)) == code && isOct(kid(op(q),1)) && strval(kid(op(q),1)) == matched && isOct(kid(op(q),2)) && strval(kid(op(q),2)) == diag
+
+//@ func gldap.beginResponse
+//@   ensures result != nil && fresh(result) && isSeq(result) && nkids(result) == 1 && isInt(kid(result,0)) && intval(kid(result,0)) == messageID && fresh(kid(result,0)) && result.Data != nil && allocated(result.Children)
+//@   panics false
+//@   modifies nothing
+//@   tags C04
+//@ func (*gldap.GeneralResponse).packet
+//@   requires r != nil && r.baseResponse != nil
+//@   ensures  result != nil && fresh(result) && nkids(result.Packet) == 2 && ldapResult(result.Packet, r.messageID, ber.Tag(r.applicationCode), int64(r.code), r.matchedDN, r.diagMessage)
+//@   panics false
+//@   modifies nothing
+//@   tags C04 C03
+//@ func (*gldap.ExtendedResponse).packet
+//@   requires r != nil && r.baseResponse != nil
+//@   ensures  result != nil && fresh(result) && nkids(result.Packet) == 2 && ldapResult(result.Packet, r.messageID, ApplicationExtendedResponse, int64(r.code), r.matchedDN, r.diagMessage)
+//@   panics false
+//@   modifies nothing
+//@   tags C04
+//@ method gldap.Control.Encode
+//@   params c Control
+//@   results p *ber.Packet
+//@   requires iref(c) != 0
+//@   ensures  p != nil && fresh(p)
+//@   ensures  unchanged("all(ber.Packet)") && unchanged("cell(*ber.Packet)") && unchanged(G_bufdata)
+//@   panics false
+//@   modifies all(ber.Packet), cell(*ber.Packet), G_bufdata, G_pktnew
+//@   tags C14
+//@ func gldap.encodeControls
+//@   requires forall(j, 0, len(controls), !isNilIface(controls[j]) && iref(controls[j]) != 0)
+//@   ensures  result != nil && fresh(result) && result.ClassType == ber.ClassContext && result.TagType == ber.TypeConstructed && result.Tag == 0 && nkids(result) == len(controls)
+//@   ensures  unchanged("all(ber.Packet)") && unchanged("cell(*ber.Packet)") && unchanged(G_bufdata)
+//@   panics false
+//@   modifies all(ber.Packet), cell(*ber.Packet), G_bufdata, G_pktnew
+//@   tags C04 C14
+//@ loop 1
+//@   invariant packet != nil && fresh(packet) && packet.ClassType == ber.ClassContext && packet.TagType == ber.TypeConstructed && packet.Tag == 0 && nkids(packet) == rangeindex + 1 && packet.Data != nil && fresh(packet.Data)
+//@   invariant unchanged("all(ber.Packet)") && unchanged("cell(*ber.Packet)") && unchanged(G_bufdata)
+//@ pure ctlsOK(cs []Control) bool = forall(j, 0, len(cs), !isNilIface(cs[j]) && iref(cs[j]) != 0)
+//@ func (*gldap.BindResponse).packet
+//@   requires r != nil && r.baseResponse != nil && ctlsOK(r.controls)
+//@   ensures  result != nil && ldapResult(result.Packet, r.messageID, ApplicationBindResponse, int64(r.code), r.matchedDN, r.diagMessage)
+//@   ensures  (len(r.controls) == 0 ==> nkids(result.Packet) == 2) && (len(r.controls) > 0 ==> nkids(result.Packet) == 3 && nkids(kid(result.Packet,2)) == len(r.controls) && kid(result.Packet,2).ClassType == ber.ClassContext && kid(result.Packet,2).Tag == 0)
+//@   panics false
+//@   modifies all(ber.Packet), cell(*ber.Packet), G_bufdata, G_pktnew
+//@   tags C04
+//@ func (*gldap.SearchResponseDone).packet
+//@   requires r != nil && r.baseResponse != nil && ctlsOK(r.controls)
+//@   ensures  result != nil && ldapResult(result.Packet, r.messageID, ApplicationSearchResultDone, int64(r.code), r.matchedDN, r.diagMessage)
+//@   ensures  (len(r.controls) == 0 ==> nkids(result.Packet) == 2) && (len(r.controls) > 0 ==> nkids(result.Packet) == 3 && nkids(kid(result.Packet,2)) == len(r.controls) && kid(result.Packet,2).ClassType == ber.ClassContext && kid(result.Packet,2).Tag == 0)
+//@   panics false
+//@   modifies all(ber.Packet), cell(*ber.Packet), G_bufdata, G_pktnew
+//@   tags C04
+
+// constructors: message ID from the request's message, values from the options (every subset)
+//@ func (*gldap.Request).NewResponse
+//@   inline literal
+//@   shapes WithResponseCode WithApplicationCode WithDiagnosticMessage WithMatchedDN
+//@   requires reqOK(r)
+//@   ensures  result != nil && fresh(result) && result.baseResponse != nil && fresh(result.baseResponse) && result.messageID == msgID(r.message)
+//@   ensures  result.code == int16(cond(has_WithResponseCode, arg_WithResponseCode, ResultUnwillingToPerform)) && result.applicationCode == cond(has_WithApplicationCode, arg_WithApplicationCode, ApplicationExtendedResponse)
+//@   ensures  result.diagMessage == cond(has_WithDiagnosticMessage, arg_WithDiagnosticMessage, "Unused") && result.matchedDN == cond(has_WithMatchedDN, arg_WithMatchedDN, "Unused")
+//@   panics false
+//@   modifies nothing
+//@   tags C04
+
+//@ func (*gldap.baseResponse).SetResultCode
+//@   requires l != nil
+//@   ensures  l.code == int16(code) && l.messageID == old(l.messageID) && l.diagMessage == old(l.diagMessage) && l.matchedDN == old(l.matchedDN)
+//@   panics false
+//@   modifies baseResponse.code
+//@   tags C04
+//@ func (*gldap.baseResponse).SetDiagnosticMessage
+//@   requires l != nil
+//@   ensures  l.diagMessage == msg && l.messageID == old(l.messageID) && l.code == old(l.code) && l.matchedDN == old(l.matchedDN)
+//@   panics false
+//@   modifies baseResponse.diagMessage
+//@   tags C04
+//@ func (*gldap.baseResponse).SetMatchedDN
+//@   requires l != nil
+//@   ensures  l.matchedDN == dn && l.messageID == old(l.messageID) && l.code == old(l.code) && l.diagMessage == old(l.diagMessage)
+//@   panics false
+//@   modifies baseResponse.matchedDN
+//@   tags C04
+
+//@ func (*gldap.EntryAttribute).encode
+//@   requires e != nil
+//@   ensures  result != nil && fresh(result) && isSeq(result) && nkids(result) == 2 && isOct(kid(result,0)) && strval(kid(result,0)) == e.Name && isU(kid(result,1), ber.TypeConstructed, ber.TagSet) && nkids(kid(result,1)) == len(e.Values)
+//@   ensures  unchanged("all(ber.Packet)") && unchanged("cell(*ber.Packet)") && unchanged(G_bufdata)
+//@   panics false
+//@   modifies all(ber.Packet), cell(*ber.Packet), G_bufdata, G_pktnew
+//@   tags C04
+//@ loop 1
+//@   invariant set != nil && fresh(set) && isU(set, ber.TypeConstructed, ber.TagSet) && nkids(set) == rangeindex + 1 && set.Data != nil && fresh(set.Data)
+//@   invariant seq != nil && fresh(seq) && isSeq(seq) && nkids(seq) == 1 && isOct(kid(seq,0)) && strval(kid(seq,0)) == e.Name && seq.Data != nil && fresh(seq.Data) && allocated(seq.Children) && fresh(kid(seq,0))
+//@   invariant unchanged("all(ber.Packet)") && unchanged("cell(*ber.Packet)") && unchanged(G_bufdata)
+//@ pure entryOK(r *SearchResponseEntry) bool = r != nil && r.baseResponse != nil && forall(j, 0, len(r.entry.Attributes), r.entry.Attributes[j] != nil)
+//@ func (*gldap.SearchResponseEntry).packet
+//@   requires entryOK(r)
+//@   ensures  result != nil && result.Packet != nil && isSeq(result.Packet) && nkids(result.Packet) == 2 && isInt(kid(result.Packet,0)) && intval(kid(result.Packet,0)) == r.messageID
+//@   ensures  op(result.Packet).ClassType == ber.ClassApplication && op(result.Packet).Tag == ApplicationSearchResultEntry && nkids(op(result.Packet)) == 2 && isOct(kid(op(result.Packet),0)) && strval(kid(op(result.Packet),0)) == r.entry.DN && nkids(kid(op(result.Packet),1)) == len(r.entry.Attributes)
+//@   panics false
+//@   modifies all(ber.Packet), cell(*ber.Packet), G_bufdata, G_pktnew
+//@   tags C04
+//@ loop 1
+//@   invariant attributesPacket != nil && isSeq(attributesPacket) && nkids(attributesPacket) == rangeindex + 1 && attributesPacket.Data != nil
+//@   modifies all(ber.Packet)@obj:attributesPacket, cell(*ber.Packet)@none, G_bufdata@obj:attributesPacket.Data, G_pktnew
+
+//@ pure respBase(r Response) *baseResponse = cond(typeIs(r, *GeneralResponse), r.(*GeneralResponse).baseResponse, cond(typeIs(r, *ExtendedResponse), r.(*ExtendedResponse).baseResponse, cond(typeIs(r, *BindResponse), r.(*BindResponse).baseResponse,
+//@     cond(typeIs(r, *SearchResponseDone), r.(*SearchResponseDone).baseResponse, cond(typeIs(r, *SearchResponseEntry), r.(*SearchResponseEntry).baseResponse, r.(*ModifyResponse).GeneralResponse.baseResponse)))))
+//@ pure respTag(r Response) int = cond(typeIs(r, *GeneralResponse), r.(*GeneralResponse).applicationCode, cond(typeIs(r, *ExtendedResponse), ApplicationExtendedResponse, cond(typeIs(r, *BindResponse), ApplicationBindResponse,
+//@     cond(typeIs(r, *SearchResponseDone), ApplicationSearchResultDone, cond(typeIs(r, *SearchResponseEntry), ApplicationSearchResultEntry, r.(*ModifyResponse).GeneralResponse.applicationCode)))))
+//@ pure respCode(r Response) int = int(respBase(r).code)
+//@ pure respID(r Response) int64 = respBase(r).messageID
+//@ pure respOK(r Response) bool = iref(r) != 0 && ((typeIs(r, *GeneralResponse) && r.(*GeneralResponse).baseResponse != nil) || (typeIs(r, *ExtendedResponse) && r.(*ExtendedResponse).baseResponse != nil) ||
+//@     (typeIs(r, *BindResponse) && r.(*BindResponse).baseResponse != nil && ctlsOK(r.(*BindResponse).controls)) || (typeIs(r, *SearchResponseDone) && r.(*SearchResponseDone).baseResponse != nil && ctlsOK(r.(*SearchResponseDone).controls)) ||
+//@     (typeIs(r, *SearchResponseEntry) && entryOK(r.(*SearchResponseEntry))) || (typeIs(r, *ModifyResponse) && r.(*ModifyResponse).GeneralResponse != nil && r.(*ModifyResponse).GeneralResponse.baseResponse != nil))
+//@ method gldap.Response.packet
+//@   params r Response
+//@   results p *packet
+//@   requires respOK(r)
+//@   ensures  p != nil && p.Packet != nil
+//@   panics false
+//@   modifies all(ber.Packet), cell(*ber.Packet), G_bufdata, G_pktnew
+//@   tags C04 C05
+//@ func (*gldap.ResponseWriter).Write
+//@   requires rw != nil && !isNilIface(rw.logger) && rw.writer != nil && rw.writerMu != nil && !held(rw.writerMu) && G_guard[rw.writer] == rw.writerMu && (!isNilIface(r) ==> respOK(r))
+//@   ensures  !held(rw.writerMu) && unchanged(G_held) && unchanged(G_rheld)
+//@   ensures  result == nil ==> G_nframes[rw.writerMu] == G_acq[rw.writerMu] + 1 && G_npend[rw.writer] == 0 && !G_werr[rw.writer]
+//@   ensures  isNilIface(r) ==> result != nil
+//@   sets     G_lastok[rw.writerMu] = (result == nil)
+//@   sets     G_lasttag[rw.writerMu] = respTag(r) when result == nil
+//@   sets     G_lastcode[rw.writerMu] = respCode(r) when result == nil
+//@   sets     G_lastid[rw.writerMu] = respID(r) when result == nil
+//@   panics false
+//@   modifies all(ber.Packet), cell(*ber.Packet), G_bufdata, G_pktnew
+//@   tags C05 C04
+
+//@ func (*gldap.conn).initConn
+//@   requires c != nil && !held(&c.mu)
+//@   ensures  (result == nil) == !isNilIface(netConn)
+//@   ensures  result == nil ==> c.netConn == netConn && c.reader != nil && c.writer != nil && fresh(c.reader) && fresh(c.writer) && G_rsrc[c.reader] == netConn && G_wdst[c.writer] == netConn && G_npend[c.writer] == 0 && !G_werr[c.writer] && G_pendstr[c.writer] == ""
+//@   ensures  !held(&c.mu) && unchanged(G_held) && unchanged(G_rheld)
+//@   sets     G_guard[c.writer] = &c.writerMu when result == nil
+//@   panics false
+//@   modifies conn.netConn, conn.reader, conn.writer
+//@   tags C05 C13
+
+// ---- routes (C03) ---------------------------------------------------------------------------------
+//@ pure rbase(r route) *baseRoute = cond(typeIs(r, *baseRoute), r.(*baseRoute), cond(typeIs(r, *searchRoute), r.(*searchRoute).baseRoute, cond(typeIs(r, *simpleBindRoute), r.(*simpleBindRoute).baseRoute,
+//@     cond(typeIs(r, *unbindRoute), r.(*unbindRoute).baseRoute, cond(typeIs(r, *extendedRoute), r.(*extendedRoute).baseRoute, cond(typeIs(r, *modifyRoute), r.(*modifyRoute).baseRoute,
+//@     cond(typeIs(r, *addRoute), r.(*addRoute).baseRoute, r.(*deleteRoute).baseRoute)))))))
+//@ pure routeOK(r route) bool = iref(r) != 0 && (typeIs(r, *baseRoute) || typeIs(r, *searchRoute) || typeIs(r, *simpleBindRoute) || typeIs(r, *unbindRoute) || typeIs(r, *extendedRoute) || typeIs(r, *modifyRoute) || typeIs(r, *addRoute) || typeIs(r, *deleteRoute)) && rbase(r) != nil && rbase(r).h != nil
+//@ pure muxOK(m *Mux) bool = m != nil && forall(j, 0, len(m.routes), routeOK(m.routes[j])) && (!isNilIface(m.defaultRoute) ==> routeOK(m.defaultRoute)) && (!isNilIface(m.unbindRoute) ==> routeOK(m.unbindRoute))
+//@ method gldap.route.handler
+//@   params r route
+//@   results h HandlerFunc
+//@   requires routeOK(r)
+//@   ensures  h == rbase(r).h && h != nil
+//@   panics false
+//@   modifies nothing
+//@   tags C03 C10
+//@ method gldap.route.op
+//@   params r route
+//@   results o routeOperation
+//@   requires routeOK(r)
+//@   ensures  o == rbase(r).routeOp
+//@   panics false
+//@   modifies nothing
+//@   tags C03
+// routeMatches: the matching rule of the property statement (search: base DN and filter
+// case-insensitively when given, scope when non-zero; extended: exact name; ...)
+//@ pure routeMatches(r route, q *Request) bool = q != nil && rbase(r).routeOp == q.routeOp && (
+//@     (typeIs(r, *searchRoute) && typeIs(q.message, *SearchMessage) &&
+//@        (r.(*searchRoute).basedn == "" || equalfold(q.message.(*SearchMessage).BaseDN, r.(*searchRoute).basedn)) &&
+//@        (r.(*searchRoute).filter == "" || equalfold(q.message.(*SearchMessage).Filter, r.(*searchRoute).filter)) &&
+//@        (r.(*searchRoute).scope == 0 || q.message.(*SearchMessage).Scope == r.(*searchRoute).scope)) ||
+//@     (typeIs(r, *extendedRoute) && typeIs(q.message, *ExtendedOperationMessage) && r.(*extendedRoute).extendedName == q.extendedName) ||
+//@     (typeIs(r, *simpleBindRoute) && typeIs(q.message, *SimpleBindMessage) && r.(*simpleBindRoute).authChoice != "" && r.(*simpleBindRoute).authChoice == q.message.(*SimpleBindMessage).AuthChoice) ||
+//@     (typeIs(r, *modifyRoute) && typeIs(q.message, *ModifyMessage)) || (typeIs(r, *addRoute) && typeIs(q.message, *AddMessage)) || (typeIs(r, *deleteRoute) && typeIs(q.message, *DeleteMessage)))
+//@ method gldap.route.match
+//@   params r route, req *Request
+//@   results ok bool
+//@   requires routeOK(r) && (req != nil ==> reqOK(req))
+//@   ensures  ok == routeMatches(r, req)
+//@   panics false
+//@   modifies nothing
+//@   tags C03
